@@ -9,8 +9,9 @@ CONSTANTS
   Sinces = {0, 1, 2, 3}
   OpenCids = {"o1"}
   MaxTrades = 3
+  ClockSlack = TRUE
   IdSlack = 1
 INVARIANT Inv
-PROPERTIES AcceptIff ExactDebit RejectPure FreshIdsStep OneFill Notif11 QueriesReflect ConfigFixed
+PROPERTIES AcceptIff ExactDebit RejectPure FreshIdsStep OneFill Notif11 QueriesReflect ConfigFixed Clock
 VIEW View
 CHECK_DEADLOCK FALSE
